@@ -33,23 +33,23 @@ type dom string
 
 const (
 	dX dom = "?"
-	dS dom = "S" // safe constant
-	dN dom = "N" // raw name
-	dT dom = "T" // pointer-escaped token
-	dP dom = "P" // joined tokens, no '#'
-	dK dom = "K" // "#"+P
-	dU dom = "U" // URL-escaped K
+	dS dom = "S"   // safe constant
+	dN dom = "N"   // raw name
+	dT dom = "T"   // pointer-escaped token
+	dP dom = "P"   // joined tokens, no '#'
+	dK dom = "K"   // "#"+P
+	dU dom = "U"   // URL-escaped K
 	dB dom = "BAD" // a raw name was spliced into a pointer
 	dQ dom = "Q"   // query-unescaped: '+' turned into space, not a faithful decoding of a $ref string
 )
 
 type encEngine struct {
 	objStack map[types.Object]bool
-	c      *Ctx
-	memo   map[ast.Expr]dom
-	onPath map[ast.Expr]bool
-	resMemo map[string]dom
-	rawName map[ast.Expr]bool // expressions whose P/K value contains an unescaped raw name (KeepNames)
+	c        *Ctx
+	memo     map[ast.Expr]dom
+	onPath   map[ast.Expr]bool
+	resMemo  map[string]dom
+	rawName  map[ast.Expr]bool // expressions whose P/K value contains an unescaped raw name (KeepNames)
 }
 
 // nameKeyedMap: maps of the document model keyed by raw names: a map-typed
